@@ -366,6 +366,22 @@ func realParse1(text string) (r parseResult) {
 	return r
 }
 
+func lineBreaksBefore(text string, ofs int) int {
+	n := 0
+	for i := 0; i < ofs && i < len(text); i++ {
+		switch text[i] {
+		case '\r':
+			n++
+			if i+1 < ofs && i+1 < len(text) && text[i+1] == '\n' {
+				i++
+			}
+		case '\n':
+			n++
+		}
+	}
+	return n
+}
+
 // wellFormed evaluates the C12 well-formedness conclusion on a returned schema.
 func wellFormed(s *schema.Schema) (sig, desc string) {
 	if s == nil || s.Structs == nil || s.Multimaps == nil || s.Enums == nil {
@@ -585,6 +601,14 @@ func parseCase(name, text string) parseResult {
 		} else if r.pos.Line < 1 || r.pos.Col < 1 || r.pos.ByteOfs > uint(len(text)) || r.pos.Unknown() {
 			propFail("C12", "error-position-outside-input", "pos %d:%d ofs %d for input of %d bytes %s",
 				r.pos.Line, r.pos.Col, r.pos.ByteOfs, len(text), quote(text))
+		}
+		if r.hasPos && !r.pos.Unknown() && r.pos.ByteOfs <= uint(len(text)) {
+			// the LINE of the position against a count of the harness's own: the line terminators (CR LF
+			// as one, a lone CR, a lone LF) in the text before the reported byte offset
+			if want := uint(1 + lineBreaksBefore(text, int(r.pos.ByteOfs))); r.pos.Line != want {
+				propFail("C12", "error-line-wrong", "the error position says line %d (col %d, byte offset %d); the text has %d line terminators before that offset, so it is line %d; input %s",
+					r.pos.Line, r.pos.Col, r.pos.ByteOfs, want-1, want, quote(text))
+			}
 		}
 		nontrivial = !strings.HasPrefix(r.class, "expected:package") && r.class != "pkg-ident"
 	case "ok":
